@@ -500,6 +500,20 @@ func Run(c *vh.Ctx) {
 		r.check(w, false)
 		c.Hit("stream:witness")
 	}
+	// the long-running programs first: state of the process that is not restored (a counter, a stack, a cache)
+	// is then found by a program that shows the drift on its own, before thousands of short programs add to it
+	tLong := c.Elapsed()
+	nl := 0
+	enumLong(c.Thorough(), func(cs Case) { r.check(cs, false); nl++ })
+	c.HitN("stream:long-run", nl)
+	longWhat := fmt.Sprintf("; long-running: one loop of 2 000–2 400 (thorough: some 6 000) iterations of a closed try statement that an exception of the caught class / of another class / of a subclass, a host panic, a return or nothing leaves through calls %s deep — functions, methods, static methods, closures, constructors, uniform and mixed — with nothing / try-finally / catch-rethrow / catch-throw-new on the way, and break / continue leaving the try block or the handler: %d programs, every iteration compared", map[bool]string{false: "1, 3 and 5", true: "1, 2, 3 and 5"}[c.Thorough()], nl)
+	nrl := c.N(30, 600)
+	for i := 0; i < nrl; i++ {
+		r.check(randLongCase(c.Rand), false)
+	}
+	c.HitN("stream:random-long-run", nrl)
+	c.Note("long-running streams: %d programs in %.1f s", nl+nrl, (c.Elapsed() - tLong).Seconds())
+
 	n1 := 0
 	enumDepth1(func(cs Case) { r.check(cs, false); n1++ })
 	c.HitN("stream:depth1", n1)
@@ -514,6 +528,8 @@ func Run(c *vh.Ctx) {
 	c.HitN("stream:reentry", nre)
 	c.Res.ExhaustiveWhat += fmt.Sprintf("; re-entrant: one frame in a function g0 that calls itself again (directly, through a second function, through an anonymous function, inside try/catch (Throwable); 2 or 3 nested activations; top-level call guarded or not) from the try block / the catch bodies / the finally block before the part's own action: exit path × {no clause, matching, non-matching, Throwable} × catch-body action × finally action × %s × {loop, no loop} × %s = %d programs", map[bool]string{false: "{one part, all parts}", true: "every non-empty set of parts"}[c.Thorough()], map[bool]string{false: "3 of the 16 shapes in rotation", true: "16 shapes"}[c.Thorough()], nre)
 
+	c.Res.ExhaustiveWhat += longWhat
+
 	nr := c.N(1500, 60000)
 	for i := 0; i < nr; i++ {
 		r.check(randCase(c.Rand), false)
@@ -524,18 +540,6 @@ func Run(c *vh.Ctx) {
 		r.check(randRecCase(c.Rand), false)
 	}
 	c.HitN("stream:random-reentrant", nrr)
-
-	tLong := c.Elapsed()
-	nl := 0
-	enumLong(c.Thorough(), func(cs Case) { r.check(cs, false); nl++ })
-	c.HitN("stream:long-run", nl)
-	c.Res.ExhaustiveWhat += fmt.Sprintf("; long-running: one loop of 2 000–2 400 (thorough: some 6 000) iterations of a closed try statement that an exception of the caught class / of another class / of a subclass, a host panic, a return or nothing leaves through calls %s deep — functions, methods, static methods, closures, constructors, uniform and mixed — with nothing / try-finally / catch-rethrow / catch-throw-new on the way, and break / continue leaving the try block or the handler: %d programs, every iteration compared", map[bool]string{false: "1, 3 and 5", true: "1, 2, 3 and 5"}[c.Thorough()], nl)
-	nrl := c.N(40, 600)
-	for i := 0; i < nrl; i++ {
-		r.check(randLongCase(c.Rand), false)
-	}
-	c.HitN("stream:random-long-run", nrl)
-	c.Note("long-running streams: %d programs in %.1f s", nl+nrl, (c.Elapsed() - tLong).Seconds())
 
 	if r.failures >= floodLimit {
 		c.Note("more than %d failing programs: the remaining generated programs were skipped", floodLimit)
